@@ -38,6 +38,12 @@ fn render_with<'a, T: DiffableStr + ?Sized>(
     case: &Case,
 ) -> Result<Rendered, std::io::Error> {
     let mut ud = diff.unified_diff();
+    if case.header_twice {
+        // decoy settings first: every setter is called again below and the
+        // last call must win
+        ud.context_radius(case.radius.wrapping_add(7) % 11)
+            .missing_newline_hint(!case.hint);
+    }
     ud.context_radius(case.radius);
     if let Some((a, b)) = &case.header {
         if case.header_twice {
@@ -81,6 +87,12 @@ fn write_with<'a, T: DiffableStr + ?Sized>(
     per_hunk: bool,
 ) -> WriterRun {
     let mut ud = diff.unified_diff();
+    if case.header_twice {
+        // decoy settings first: every setter is called again below and the
+        // last call must win
+        ud.context_radius(case.radius.wrapping_add(7) % 11)
+            .missing_newline_hint(!case.hint);
+    }
     ud.context_radius(case.radius);
     if let Some((a, b)) = &case.header {
         if case.header_twice {
